@@ -358,6 +358,8 @@ pub struct ScenOut {
     pub events: Vec<String>,
     pub hash: u64,
     pub returned_in_child: bool,
+    /// (parent call index, errno) of the faults the seeded multi-fault mode fired
+    pub random_fired: Vec<(u32, i32)>,
 }
 
 /// Run one scenario under an optional single-fault plan and judge descriptor hygiene.
@@ -368,9 +370,11 @@ pub fn run_scenario(sc: &Scenario, plan: Option<Plan>, random: Option<u32>, dec:
     let k = PassKernel::new();
     k.plan.set(plan);
     let mut sim = Sim::new(dec, SimCfg { record, ..SimCfg::default() });
+    let random_fired: std::rc::Rc<std::cell::RefCell<Vec<(u32, i32)>>> = std::rc::Rc::new(std::cell::RefCell::new(Vec::new()));
     if let Some(p) = random {
         // seeded multi-fault mode: every parent call may fail
         let kp: *const PassKernel = &k;
+        let rf = random_fired.clone();
         let f = move |n: usize, _a: [usize; 6]| -> Option<usize> {
             let s = sched::sim()?;
             let k = unsafe { &*kp };
@@ -381,6 +385,7 @@ pub fn run_scenario(sc: &Scenario, plan: Option<Plan>, random: Option<u32>, dec:
                 let es = plausible_errnos(n);
                 let e = es[s.dec.choose(K::Fault, es.len() as u32) as usize];
                 k.fault_fired.set(true);
+                rf.borrow_mut().push((k.parent_calls.get(), e));
                 k.trace.borrow_mut().push(n);
                 k.parent_calls.set(k.parent_calls.get() + 1);
                 s.count("fault.random_errno");
@@ -430,7 +435,7 @@ pub fn run_scenario(sc: &Scenario, plan: Option<Plan>, random: Option<u32>, dec:
     let fail_label = match plan {
         Some(p) if p.side == Side::Parent && (p.index as usize) < trace.len() => PassKernel::label_of(&trace, p.index as usize),
         Some(p) if p.side == Side::Child && (p.index as usize) < child_trace.len() => format!("child:{}", PassKernel::label_of(&child_trace, p.index as usize)),
-        Some(_) => "unreached".to_string(),
+        Some(_) => "ok-path".to_string(),
         None => {
             if random.is_some() {
                 "random-faults".to_string()
@@ -475,7 +480,8 @@ pub fn run_scenario(sc: &Scenario, plan: Option<Plan>, random: Option<u32>, dec:
     }
     h = simk::dec::mix(&[h, plan.map_or(0, |p| u64::from(p.index) << 16 | p.errno as u64 | if p.side == Side::Child { 1 << 40 } else { 0 }), u64::from(result_ok)]);
     let events = sim.trace.events.take().unwrap_or_default();
-    let out = ScenOut { violation, trace, child_trace, fired, result_ok, events, hash: h, returned_in_child: sh.returned_in_child != 0 };
+    let rfv = random_fired.borrow().clone();
+    let out = ScenOut { violation, trace, child_trace, fired, result_ok, events, hash: h, returned_in_child: sh.returned_in_child != 0, random_fired: rfv };
     let dec = std::mem::replace(&mut sim.dec, Dec::from_list(Vec::new()));
     (out, dec)
 }
@@ -557,7 +563,18 @@ impl Check for C12 {
             (si, None, Some(p))
         };
         let sc = &scs[si];
-        let (o, mut dec) = run_scenario(sc, plan, random, dec, opts.record, case);
+        let (mut o, mut dec) = run_scenario(sc, plan, random, dec, opts.record, case);
+        if random.is_some() && o.violation.is_some() {
+            // fault minimisation: does one of the fired faults alone reproduce a violation? then
+            // report it under that single-fault signature (the same one the enumeration part uses)
+            for (idx, e) in o.random_fired.clone() {
+                let (o2, _) = run_scenario(sc, Some(Plan { side: Side::Parent, index: idx, errno: e }), None, Dec::from_list(Vec::new()), false, case);
+                if o2.violation.is_some() && o2.fired {
+                    o.violation = o2.violation;
+                    break;
+                }
+            }
+        }
         let mut out = RunOut::default();
         out.violation = o.violation;
         out.hash = o.hash;
